@@ -12,7 +12,12 @@ _MOD = None
 
 
 def _one(desc):
-    return _MOD.run_state(desc)
+    from . import runner
+    if runner._CONST_SNAPSHOT is None:
+        runner._check_module_constants({})
+    r = _MOD.run_state(desc)
+    runner._check_module_constants(r)      # in interpreted mode a write to a module-level array persists between calls
+    return r
 
 
 def run(modname, mode, tier, seed, nproc=8, func="sub_states"):
